@@ -384,9 +384,12 @@ func c15Run(x *mc.X, sp c15Special, shape c15Shape, pos, target int, preserve bo
 		known := c15YamlClass(sp.p)
 		fail := func(class, msg string) mc.Outcome {
 			key := "export-import/" + class
-			if known != "" {
+			// failures of the special content itself (a point lost / changed / the YAML not readable) are classified by
+			// that content; failures of the tree structure, of ids or of references never are
+			content := strings.HasPrefix(class, "point-") || strings.HasPrefix(class, "edge-point-") || class == "import-error" || class == "export-error"
+			if content && known != "" {
 				key = known
-			} else if strings.HasPrefix(sp.name, "text=") || strings.HasPrefix(sp.name, "key=") && sp.p.Type == "kx" {
+			} else if content && (strings.HasPrefix(sp.name, "text=") || strings.HasPrefix(sp.name, "key=") && sp.p.Type == "kx") {
 				key = "yaml-string/" + sp.name[strings.Index(sp.name, "=")+1:]
 			}
 			return mc.Outcome{Violation: fmt.Sprintf("tree %s with %s at node n%d, import target %s, preserveIDs=%v: %s", shape.name, sp.name, pos, []string{"same parent", "other parent", "other instance"}[target], preserve, msg), Key: key}
